@@ -6,55 +6,7 @@ interfaces), the way run() ended, the final status map and the final worker stat
 event with model/Tuner.v ``run`` evaluated by vm_compute on the same script (chk_run).
 The independent Python checker ``tuner_cases.check_c01`` (budget, ids, life-cycle automaton, notifications)
 runs on every implementation trace; driver (b) runs it on traces produced with REAL schedulers."""
-import json
-import os
-
 import tuner_cases as tc
-from common import VERIF
-
-
-def corpus_cases(prop):
-    d = os.path.join(VERIF, "corpus", prop)
-    res = []
-    if os.path.isdir(d):
-        for f in sorted(os.listdir(d)):
-            if f.endswith(".json"):
-                res.append(json.load(open(os.path.join(d, f)))["case"])
-    return res
-
-
-def scripted_runs(ctx, cases, checker, prop_name, shard=20):
-    """Runs every case on the implementation, applies the independent checker, then the Coq comparison."""
-    terms, meta = [], []
-    for case in cases:
-        out = tc.run_case(case)
-        if out["aborted"]:
-            ctx.h("outcome", "aborted")
-            ctx.notes.append("a generated run exceeded the hard iteration limit and was dropped")
-            continue
-        rep = tc.replayable(case, out)
-        tc.histograms(ctx, case, out)
-        ctx.count(rep, nontrivial=tc.nontrivial(out))
-        ctx.traces_validated += 1
-        if len(ctx.samples) < 2 and 20 < len(out["trace"]) < 80:
-            ctx.sample(dict(params=case["params"], style=case.get("style"), trace_head=out["trace"][:25],
-                            outcome=out["outcome"], status_map=out["smap"]))
-        for what, sig in checker(case["params"], out):
-            ctx.violation("property", what, case=rep, signature=sig)
-        terms.append(tc.coq_case(case, out))
-        meta.append((rep, out))
-    if terms:
-        bad = ctx.coq_bad_cases("run", tc.IMPORTS, tc.PRELUDE, "chk_run", terms, shard=shard)
-        if bad:
-            diag = ctx.coq_eval("diag", tc.IMPORTS, tc.PRELUDE, ["diag_run %s" % terms[i] for i in bad[:3]])
-        for n, i in enumerate(bad):
-            rep, out = meta[i]
-            d = diag[n] if n < 3 else ""
-            ctx.violation("correspondence",
-                          "model/Tuner.v run differs from the real Tuner.run() on a scripted run; "
-                          "(first differing event index, model event, model outcome, status map equal, workers equal) = %s; "
-                          "implementation outcome %s" % (d, out["outcome"]),
-                          case=rep, failing_input=False, broken="correspondence chk_run (model/Tuner.v run) for " + prop_name)
 
 
 def run(ctx, replay=None):
@@ -70,12 +22,12 @@ def run(ctx, replay=None):
         if replay.get("kind") == "real":
             real_scheduler_runs(ctx, [replay])
         else:
-            scripted_runs(ctx, [replay], tc.check_c01, "C01")
+            tc.scripted_runs(ctx, [replay], tc.check_c01, "C01")
         return
-    cases = corpus_cases("C01")
-    cases += [tc.gen_case(rng, small=True) for _ in range(ctx.n(120, 3000))]
-    cases += [tc.gen_case(rng) for _ in range(ctx.n(280, 12000))]
-    scripted_runs(ctx, cases, tc.check_c01, "C01")
+    cases = tc.corpus_cases("C01")
+    cases += [tc.gen_case(rng, small=True) for _ in range(ctx.n(200, 4000))]
+    cases += [tc.gen_case(rng) for _ in range(ctx.n(500, 16000))]
+    tc.scripted_runs(ctx, cases, tc.check_c01, "C01")
     real_scheduler_runs(ctx, None)
 
 
